@@ -5,7 +5,9 @@
    obs:   the returned ID list, wrapped in VE when an error was returned (LineSidVsExt: the pair of both functions' results).
    corr = same error flag and, on success, the same ID set as the executable model Line.line_api run with Go's own
           math.Tan/Cos/Log answers;
-   prop = LineCheck.check_line on the observed set with the STRICT latitude band (lemma judge_prop below);
+   prop = LineCheck.check_line on the observed set with the STRICT latitude band (lemma judge_prop below); longitude is cyclic:
+          a voxel of column 0 that the segment meets on the meridian 180 within the rounding band tol_lon (LineCheck.meridian_folds:
+          an end point at 180, or float midpoints that round to 180 and are folded onto column 0 by the code) touches the last column;
    classes (only when the model reproduces the output and only for the failing conjunct named):
      retruncation_unstable_endpoint — an end point changes its row when it is stored again (SetLat is not idempotent: D14) and the
           only failures are (i) connectivity, repaired by adding the re-stored end voxels, the end voxel being exactly one row
@@ -133,9 +135,10 @@ Open Scope string_scope.
                   | Some ids =>
                       let vs := vox_top_pt tanf cosf logf h v s in
                       let ve := vox_top_pt tanf cosf logf h v e in
-                      judge (fun x => y_f tanf cosf logf x h) vs ve
+                      let rowf := fun x => y_f tanf cosf logf x h in
+                      judge rowf vs ve
                             (vox_in_pt tanf cosf logf h v s) (vox_in_pt tanf cosf logf h v e)
-                            (folds_pt tanf cosf logf h v s e) g h v o ids
+                            (meridian_folds rowf tol_lat0 g h v ids) g h v o ids
                   | None => (false, "-")
                   end
               | _, _ => (false, "-")
@@ -212,6 +215,21 @@ Open Scope string_scope.
     intros E. unfold step_verdicts. rewrite combine_snoc by exact E. rewrite map_app.
     rewrite nth_error_app2; rewrite map_length, combine_length, <- E, Nat.min_id; [|apply Nat.le_refl].
     rewrite Nat.sub_diag. reflexivity.
+  Qed.
+  (* a one-step history gets exactly the standalone verdict and class of its step (nothing is lost in the merge); d_line gives a
+     class only together with prop = false and corr = true *)
+  Lemma merge_single v : is_class "bad-case" v = false -> is_class "skipped" v = false ->
+    (v_prop v = true -> v_class v = "-") -> (v_corr v = false -> v_class v = "-") ->
+    v_corr (merge_verdicts [v]) = v_corr v /\ v_prop (merge_verdicts [v]) = v_prop v /\ v_class (merge_verdicts [v]) = v_class v.
+  Proof.
+    intros B S P C. unfold merge_verdicts. cbn [existsb forallb find map]. rewrite B, S. cbn [orb].
+    rewrite !andb_true_r, orb_false_r. cbn [v_corr v_prop v_class mkv].
+    split; [reflexivity|]. split; [reflexivity|].
+    destruct (v_prop v) eqn:Ep; cbn [negb andb orb].
+    - symmetry. now apply P.
+    - destruct (v_corr v) eqn:Ec; cbn [negb orb].
+      + destruct (is_class "-" v) eqn:E; [|reflexivity]. unfold is_class in E. apply String.eqb_eq in E. now rewrite E.
+      + rewrite orb_true_r. symmetry. now apply C.
   Qed.
   (* a history case passes (prop) exactly when every step passes, provided no step is outside the judged domain or over-size *)
   Lemma merge_prop vs : existsb (is_class "bad-case") vs = false -> existsb (is_class "skipped") vs = false ->
